@@ -28,20 +28,22 @@ func sortNaturalFilter(array []any, key any) any {
 	case key != nil:
 		sort.Sort(keySortable{result, func(m any) string {
 			rv := reflect.ValueOf(m)
-			if rv.Kind() != reflect.Map {
+			if rv.Kind() != reflect.Map || rv.Type().Key() != reflect.TypeOf(key) {
 				return ""
 			}
 			ev := rv.MapIndex(reflect.ValueOf(key))
-			if ev.CanInterface() {
+			if ev.IsValid() && ev.CanInterface() {
 				if s, ok := ev.Interface().(string); ok {
 					return strings.ToLower(s)
 				}
 			}
 			return ""
 		}})
-	case reflect.TypeOf(array[0]).Kind() == reflect.String:
+	case array[0] != nil && reflect.TypeOf(array[0]).Kind() == reflect.String:
 		sort.Sort(keySortable{result, func(s any) string {
-			return strings.ToUpper(s.(string))
+			// elements that are not strings sort first
+			str, _ := s.(string)
+			return strings.ToUpper(str)
 		}})
 	}
 	return result
